@@ -207,3 +207,34 @@ def first(toks, tag, default=None):
 
 def allv(toks, tag):
     return [v for k, v in toks if k == tag]
+
+
+def canon_pre(nums):
+    """canonical form of a three-part txid preimage given as [a_off, a_len, b_off, b_len, c_off, c_len]:
+    empty parts dropped, adjacent contiguous parts merged, padded back to three windows.  The properties
+    speak about the concatenation (C10) and about the callbacks (C04), not about how the accessor splits it."""
+    segs = []
+    for i in (0, 2, 4):
+        o, l = nums[i], nums[i + 1]
+        if l == 0:
+            continue
+        if segs and segs[-1][0] + segs[-1][1] == o:
+            segs[-1] = (segs[-1][0], segs[-1][1] + l)
+        else:
+            segs.append((o, l))
+    while len(segs) < 3:
+        segs.append((0, 0))
+    return [x for sg in segs for x in sg]
+
+
+def canon_ev(v):
+    """event token with the preimage windows of a transaction callback canonicalised"""
+    if v.startswith("10,"):
+        p = v.split(",")
+        if len(p) == 12:
+            try:
+                c = canon_pre([int(x) for x in p[5:11]])
+            except ValueError:
+                return v
+            return ",".join(p[:5] + [str(x) for x in c] + p[11:])
+    return v
